@@ -58,8 +58,8 @@ const (
 	collP   = "/u/h/c/"
 	objICS  = "/u/h/c/o.ics"
 	objVCF  = "/u/h/c/o.vcf"
-	icalTxt = "BEGIN:VCALENDAR\r\nVERSION:2.0\r\nPRODID:-//verif//EN\r\nBEGIN:VEVENT\r\nUID:u1\r\nDTSTAMP:20200101T000000Z\r\nDTSTART:20200101T000000Z\r\nEND:VEVENT\r\nEND:VCALENDAR\r\n"
-	vcardTx = "BEGIN:VCARD\r\nVERSION:4.0\r\nFN:x\r\nEND:VCARD\r\n"
+	icalTxt = "BEGIN:VCALENDAR\r\nVERSION:2.0\r\nPRODID:-//verif//EN\r\nBEGIN:VEVENT\r\nUID:u1\r\nDTSTAMP:20200101T000000Z\r\nDTSTART;VALUE=DATE-TIME:20200101T000000Z\r\nSUMMARY;LANGUAGE=en;X-P=\"q,uoted\":hello\r\nATTENDEE;PARTSTAT=ACCEPTED,X;CN=A B:mailto:a@b\r\nEND:VEVENT\r\nEND:VCALENDAR\r\n"
+	vcardTx = "BEGIN:VCARD\r\nVERSION:4.0\r\nFN:x\r\nEMAIL;TYPE=home,work:a@b\r\nTEL;TYPE=\"v,oice\";PREF=1:1\r\nEND:VCARD\r\n"
 )
 
 type world struct {
@@ -159,6 +159,17 @@ func rootName(body []byte) (xml.Name, bool) {
 			return se.Name, true
 		}
 	}
+}
+
+// upstreamDecodes reports whether the upstream iCalendar/vCard decoder accepts a body.  go-ical panics on some
+// malformed content lines (a line ending inside a parameter); a body it cannot get through is unparseable.
+func upstreamDecodes(decode func() error) (ok bool) {
+	defer func() {
+		if recover() != nil {
+			ok = false
+		}
+	}()
+	return decode() == nil
 }
 
 func dev(kind, f string, a ...any) vev.Outcome {
@@ -286,11 +297,11 @@ func evaluate(c Case) (vev.Outcome, error) {
 			}
 		}
 	case c.Method == "PUT" && c.Server == "caldav" && ct == "text/calendar":
-		if _, err := ical.NewDecoder(strings.NewReader(string(c.Body))).Decode(); err != nil {
+		if !upstreamDecodes(func() error { _, err := ical.NewDecoder(strings.NewReader(string(c.Body))).Decode(); return err }) {
 			why = append(why, "unparseable-icalendar")
 		}
 	case c.Method == "PUT" && c.Server == "carddav" && ct == "text/vcard":
-		if _, err := vcard.NewDecoder(strings.NewReader(string(c.Body))).Decode(); err != nil {
+		if !upstreamDecodes(func() error { _, err := vcard.NewDecoder(strings.NewReader(string(c.Body))).Decode(); return err }) {
 			why = append(why, "unparseable-vcard")
 		}
 	}
@@ -960,6 +971,29 @@ func TestMalformedCatalogue(t *testing.T) {
 		}
 	}
 	rec.ExhaustiveSub("a catalogue of 32 documents malformed by construction: every mutually exclusive combination, invalid enumeration, date and limit at every position the RFC DTDs allow")
+}
+
+// content lines on which iCalendar/vCard decoders are known to stumble (a line ending inside a parameter, an
+// unterminated quoted parameter, stray separators, a dangling fold), alone and behind a valid prefix
+func TestHostileTextBodies(t *testing.T) {
+	if vev.ReplayFile() != "" {
+		t.Skip()
+	}
+	lines := []string{"A;B=", "A;B=\"c", "A;B=c,", "A;", "A", ";", ":", "=", "A;B", "A;B=c;", "A;B=c;D=", "A;B=\"c\"d", " folded", "\r\n", "A;B=^", "A:\r\n B;C=", "\x00", "A;=:", ";=", "A;B=c:d\r\nE;F="}
+	k := 0
+	for _, l := range lines {
+		for _, pre := range []string{"", "BEGIN:VCALENDAR\r\n", "BEGIN:VCALENDAR\r\nVERSION:2.0\r\nBEGIN:VEVENT\r\n", "BEGIN:VCARD\r\n", "BEGIN:VCARD\r\nVERSION:4.0\r\n"} {
+			for _, tgt := range []struct{ server, path, ct string }{{"caldav", "/u/h/c/new.ics", "text/calendar; charset=utf-8"}, {"carddav", "/u/h/c/new.vcf", "text/vcard"}} {
+				k++
+				if !vev.MyShare(k) {
+					continue
+				}
+				c := Case{Server: tgt.server, Method: "PUT", Path: tgt.path, Hdr: [][2]string{{"Content-Type", tgt.ct}}, Body: vev.B(pre + l), Mutated: true}
+				run(t, nil, c, "hostile-text/"+tgt.server)
+			}
+		}
+	}
+	rec.ExhaustiveSub("20 hostile content lines x 5 prefixes as PUT bodies of both servers")
 }
 
 func TestMutations(t *testing.T) {
